@@ -972,11 +972,11 @@ Proof.
   eapply MK_trans; [exact K1|]. apply MK_with_msgs; [eapply MK_J; eauto| |].
   - intros w. pose proof (FC_state_update_msgs w i (i_state it) new) as F1.
     destruct (state_update_msgs w i (i_state it) new) as [w1 m1]. cbn [fst] in F1.
-    destruct (FC_state_fold (i_state it) new (state_desc (S (length (w_items w1))) w1 (child_items it false)) w1 m1) as (F2 & _).
+    destruct (FC_state_fold (i_state it) new (state_desc (length (child_items it false) + S (length (w_items w1))) w1 (child_items it false)) w1 m1) as (F2 & _).
     eapply FC_trans; eauto.
   - intros w. pose proof (S_state_update_msgs w i (i_state it) new) as S1.
     destruct (state_update_msgs w i (i_state it) new) as [w1 m1]. cbn [fst] in S1.
-    destruct (FC_state_fold (i_state it) new (state_desc (S (length (w_items w1))) w1 (child_items it false)) w1 m1) as (_ & S2). congruence.
+    destruct (FC_state_fold (i_state it) new (state_desc (length (child_items it false) + S (length (w_items w1))) w1 (child_items it false)) w1 m1) as (_ & S2). congruence.
 Qed.
 
 Theorem target_set_op_MK s i new : J (fst s) -> MK (fst s) (fst (fst (target_set_op s i new))).
